@@ -9,6 +9,44 @@ BASELINE_OFF = ("cd /repo && env -u TOREAMUN_AMSHAN_VERIF /venv/bin/python -m py
 
 # pid -> (category, text, note, technique, design_ref, engine)
 CHECKS = {
+    "C07": ("model_checking",
+            "Bounded-exhaustive input shapes for the Aidon decoder: 8 documented list layouts, every prefix, every rotation, the reversal and every element alone; per integer type (u32, i16, u16) a boundary/bit-pattern/seed alphabet "
+            "x every scaler -3..3, alone and inside list 3, and the complete 2^16 range of the i16 and u16 registers; text fields; unknown codes; frame vs bare body. Expected dictionaries from exact Fraction arithmetic.",
+            "Trusted: reference encoders and the documented C.D.E -> name table (mc/ref/cosem.py), bound byte for byte to the 14 captured notification bodies of the test suite. 32-bit registers on boundaries and bit patterns, not all 2^32.",
+            "bounded-exhaustive shape x value enumeration on the real decoder with an exact-arithmetic reference", "DESIGN.md 4/C07", "E5"),
+    "C08": ("model_checking",
+            "The five positional Kaifa layouts and the OBIS-tagged layout with all-distinct registers (a swap is visible), per position the u32 boundary/bit-pattern/seed alphabet, all-equal rows, text alphabets, complete 2^16 sweeps "
+            "of half-words of current and voltage registers; bare body and frame (APDU date-time vs list clock).",
+            "Trusted: as C07 (mc/ref/cosem.py bound to tests/test_kaifa.py fixtures).", "bounded-exhaustive shape x value enumeration on the real decoder with an exact-arithmetic reference", "DESIGN.md 4/C08", "E5"),
+    "C09": ("model_checking",
+            "Five documented Kamstrup layouts x null-data padding of 1/4 octets after each element position and everywhere x 9 meter type numbers (incl. current-transformer types 685...) x u32/u16 alphabets per register for a standard "
+            "and a CT meter x complete 2^16 sweep of a current register; bare body and frame.",
+            "Trusted: as C07 (bound to tests/test_kamstrup.py fixtures); register/100 is taken literally as the correctly rounded quotient.", "bounded-exhaustive shape x value enumeration on the real decoder with an exact-arithmetic reference", "DESIGN.md 4/C09", "E5"),
+    "C10": ("model_checking",
+            "31 680 date-times from the full product of reduced field alphabets plus complete single-field sweeps (all 1441 deviations and 'unspecified', all 256 status octets, all hundredths, every day of 2023/2024, times of day, all day-of-week values) "
+            "placed in each of the six syntactic positions (APDU tagged/untagged, Aidon, Kaifa positional, Kaifa OBIS, Kamstrup clock elements), compared with == and utcoffset().",
+            "Trusted: reference date-time encoder; no full cross product of complete field ranges.", "bounded-exhaustive field-product enumeration x 6 syntactic positions on the real decoders", "DESIGN.md 4/C10", "E5"),
+    "C11": ("model_checking",
+            "Grammar-shape enumeration of P1 data blocks (1..3 data sets per line, 1..3 values per set over 5 value kinds, LF/CRLF, blank lines), every presence pattern of A,B,F over all 30 known C.D.E codes and unknown ones x unit letter-case variants, "
+            "the complete grid of decimals with 0..3 fraction digits for 25 integer parts x leading zeros, clock values, 270 identification lines; each block through parse, decode_p1_readout_content, decode_p1_readout and both AutoDecoder entry points "
+            "against an exact (Fraction) reference.",
+            "Trusted: exact reference parser (bound to the data sets of the 5 captured readouts).", "bounded-exhaustive grammar-shape enumeration with an exact-arithmetic reference", "DESIGN.md 4/C11", "E5"),
+    "C12": ("model_checking",
+            "Explicit-state exploration of the real AutoDecoder to a fixpoint: 8 states (remembered decoder) x a pool of 120+ payloads (28 captured messages, reference-built lists of every supported shape in frame and body form, 5 P1 blocks, junk): every "
+            "(state, event) transition is executed and judged against the seven decoder functions called individually; both entry points with HdlcFrame/DlmsMessage wrappers. Covers histories of any length over the pool.",
+            "Trusted: the AutoDecoder's future depends only on its snapshotted attributes; accept/reject observed by calling the public decoder functions.", "explicit-state model checking to a fixpoint (all reachable states x all events)", "DESIGN.md 4/C12", "E2"),
+    "C13": ("model_checking",
+            "Every sequence of up to 3-4 segments over a 10-segment alphabet (valid/header-only/bad-FCS/wrong-length/stuffed frames, valid/bad-CRC/checksum-less readouts, binary and ASCII noise) x 7 candidate reader lists x both protocol classes x "
+            "chunkings (one-shot, octet-wise, every single cut, fixed 2..7, pairs of cuts); the queue is compared with the expectation computed from independent reader instances, plus the completeness clause on clean streams.",
+            "Trusted: the expectation uses fresh real readers (the property is relative to the readers' own output).", "bounded-exhaustive enumeration of segment sequences x chunkings x configurations on the real protocols", "DESIGN.md 4/C13", "E1"),
+    "C15": ("model_checking",
+            "Every truncation and every 1-octet substitution (16 structural values, b+-1, b^1; thorough: 2-octet structural substitutions) of genuine messages, and every ASCII string up to length 4-7 over {1 . ( ) * x LF}, each given to the real AutoDecoder in "
+            "each of its 8 states and through both entry points under a deterministic call-count budget (400 n + 40 000 Python calls; observed maximum about 4 % of it): no exception, dict or None, terminates.",
+            "Trusted: the call-count budget as proxy for time and memory; RLIMIT_AS backstop.", "deviation-bounded exhaustive mutation of messages x all decoder states with a deterministic termination monitor", "DESIGN.md 4/C15", "E3"),
+    "C20": ("model_checking",
+            "All 16 presence patterns of the optional groups x group values over {0,1,9,10,99,100,255} in both syntaxes (3.3e5 codes), complete 0..255 sweep of every group, format->parse round trip whenever optional groups are absent or non-zero, "
+            "every string up to length 6-8 over {1 . - : * a space} without digit.digit (must raise ValueError), all 5.3e6 ordered pairs of 2304 tuples for ==/hash.",
+            "Trusted: reference formatter mc/ref/obis.py.", "exhaustive enumeration of the bounded input space", "DESIGN.md 4/C20", "E5"),
     "C01": ("model_checking",
             "Bounded-exhaustive exploration of the real HdlcFrameReader: every octet string up to length N over a 5/7-symbol alphabet that contains "
             "complete valid frames, every sequence of up to 6-8 frame tokens, and every stream within <=1-2 edits of realistic multi-frame streams, "
